@@ -354,11 +354,11 @@ def main(pid, tier, seed=0, only_canaries=False):
               agg["discharged"], agg["unknown"], agg["queries"],
               agg["solver"], wall, replayed, len(reported_known), len(seen),
               val["traces"], can_det, can_total))
+    for h in harness_err[:10]:
+        print("HARNESS-ERROR:", h[:700])
     if seen:
         return EXIT_VIOLATION
     if harness_err:
-        for h in harness_err[:10]:
-            print("HARNESS-ERROR:", h[:700])
         return EXIT_HARNESS
     return EXIT_OK
 
